@@ -14,6 +14,7 @@ import (
 	"strings"
 	"sync"
 	"sync/atomic"
+	"time"
 
 	"github.com/filecoin-project/go-f3/internal/verif/vcommon"
 	"github.com/filecoin-project/go-f3/internal/writeaheadlog"
@@ -462,12 +463,20 @@ func main() {
 		}
 	}
 	rec(nil)
-	// a few long histories that really rotate (3 big appends exceed 1 MiB)
-	hists = append(hists,
-		[]string{"aB2", "aB2", "aS1", "aB2", "aS3", "purge3", "aS1"},
-		[]string{"aS1", "aB2", "aB2", "aB2", "aB2", "reopen", "purge3", "aS2"},
-		[]string{"aB2", "aB2", "aB2", "aS1", "rot", "purge2", "reopen", "aS3"},
-	)
+	// shortest first (a time budget, if hit, cuts the deepest level), after a few long histories that really
+	// rotate (3 big appends exceed 1 MiB)
+	sort.SliceStable(hists, func(a, b int) bool { return len(hists[a]) < len(hists[b]) })
+	hists = append([][]string{
+		{"aB2", "aB2", "aS1", "aB2", "aS3", "purge3", "aS1"},
+		{"aS1", "aB2", "aB2", "aB2", "aB2", "reopen", "purge3", "aS2"},
+		{"aB2", "aB2", "aB2", "aS1", "rot", "purge2", "reopen", "aS3"},
+	}, hists...)
+	budget := 12 * time.Minute
+	if vcommon.Thorough() {
+		budget = 40 * time.Minute
+	}
+	dl := vcommon.NewDeadline(budget)
+	var timedOut atomic.Bool
 	var st counters
 	var next atomic.Int64
 	var stop atomic.Bool
@@ -482,6 +491,10 @@ func main() {
 			for !stop.Load() {
 				i := int(next.Add(1)) - 1
 				if i >= len(hists) {
+					return
+				}
+				if dl.Expired() {
+					timedOut.Store(true)
 					return
 				}
 				h := hists[i]
@@ -554,7 +567,9 @@ func main() {
 	chk.Set("operations", st.ops.Load())
 	chk.Set("crash_images", st.crashImages.Load())
 	chk.Set("depth", depth)
-	chk.Set("exhaustive", chk.Violations() == 0)
+	chk.Set("histories_in_space", len(hists))
+	chk.Set("time_budget_hit", timedOut.Load())
+	chk.Set("exhaustive", chk.Violations() == 0 && !timedOut.Load())
 	chk.Set("rule", "all operation sequences over {append small (epoch 1,2; thorough also 3), append 600 KiB (epoch 2), append of an entry that fails to encode part-way, rotate, close, purge(2), purge(3), reopen} up to the depth, plus three long rotating histories, on the real WriteAheadLog in /dev/shm; All() is compared with the reference list of acknowledged, unpurged entries after every step (set equality, per-file order, purge conservative and complete by directory listing); for every history ending in an append, every byte offset of that append (big entries: quick first/last 32 offsets and 8 evenly spaced; thorough first/last 1024 and every 40009th) is materialised as a torn file, recovered, read, continued (append, reopen, append, purge, reopen) and compared again")
 	_ = os.RemoveAll(root)
 	chk.Assume("a crash tears only the final write; directory entries of created files survive; file names (wall clock) are opaque and cross-file order is not asserted")
